@@ -254,6 +254,9 @@ fn list_values(tag: &str) -> Vec<(Vec<G>, T)> {
         (vec![G::Unify(v1.clone(), list(vec![]))], v1.clone()),
         (vec![G::Unify(e1.clone(), b())], list(vec![e1.clone(), a()])),
         (vec![G::Unify(t1.clone(), list_t(vec![b()], t2.clone())), G::Unify(t2.clone(), list(vec![atom("c")]))], list_t(vec![a()], t1.clone())),
+        // chains of two tail variables whose last link is not one element long
+        (vec![G::Unify(t2.clone(), list(vec![atom("c"), atom("d")])), G::Unify(t1.clone(), list_t(vec![b()], t2.clone()))], list_t(vec![a()], t1.clone())),
+        (vec![G::Unify(t1.clone(), list_t(vec![b(), atom("c")], t2.clone())), G::Unify(t2.clone(), list(vec![]))], list_t(vec![a()], t1.clone())),
     ]
 }
 
